@@ -45,3 +45,6 @@ def build(H, tier, seed):
 
 def standins(tier, seed):
     return K.symcoef_jobs('C03', OPS + ['gp'], tier, seed)
+
+
+replay = K.replay_operator
